@@ -24,6 +24,12 @@ TEXT = {
  "C13": dict(tech="rapid round-trip (encode/decode) with field equality and verdict-equivalence oracle",
    text="decode(encode(x)) == x for every genuine membership/incremental answer of generated logs (incl. clamped q>current, audit-path indexes >= 256), synthetic audit paths up to 2^64-1, snapshots/batches, replicated commands/state codecs and gossip messages; decoded proofs must give the original's verdict on genuine and wrong inputs. Exploration.",
    note="nil and empty byte slices are identified where the codec conflates them; msgpack/JSON libraries are trusted.", ref="§5 C13"),
+ "C14": dict(tech="rapid stateful (model-based) testing of both store back-ends against a sorted-map-per-table model; executor child for RocksDB",
+   text="Generated sequences of mutate/get/range/scan/last/reopen over all tables with adversarial keys are run on BPlusTreeStore (in-process) and RocksDBStore (in a child process so that an abort at close is an observation) and every observation is compared with a map model; a writer/reader pair checks batch atomicity on RocksDB. Exploration.",
+   note="RocksDB 7.8 (Debian build, assertions on) through the /verif/compat shim is the trusted base; bplus concurrency is not generated (no caller uses it concurrently).", ref="§5 C14"),
+ "C15": dict(tech="rapid stateful (model-based) testing of the raft log store against a map model, run in an executor child",
+   text="Generated sequences of StoreLog/StoreLogs/GetLog/DeleteRange/FirstIndex/LastIndex/Set/Get/SetUint64/GetUint64/reopen with indexes anywhere in uint64 and payloads up to 64 KB are run on the real RocksDB-backed log store (consensus hook) and compared field by field with a map model, again after reopen and a clean process end. Exploration.",
+   note="Stable-store values are non-empty and uint64/byte settings use separate keys (as raft does); RocksDB is trusted.", ref="§5 C15"),
 }
 
 NA = {}
